@@ -35,6 +35,7 @@ func checkC01(c *Ctx, r *Report) {
 	c01SvcbDupSentinel(c, r, "C01.R4.svcb-dup-sentinel")
 	c01SubnetMasked(c, r, "C01.R8.subnet-masked")
 	txtEmptyList(c, r, "C01.R1.txt-empty", "an RDATA-less TXT-like record (the RFC 2136 class-ANY form) is packed with RDLENGTH 1 and a lone zero octet: unpack followed by pack changes the octets")
+	sideStructOffsets(c, r, "C01.R1.side-offsets", "the octets produced for the structure stop before that field")
 }
 
 // sideStructs are the hand-written wire-format structs with their packers.
